@@ -1042,3 +1042,39 @@ package ice
 //@ func (*docValueReader).loadDvChunk
 //@   ensures[C13,C19] @failed_load_leaves_cache_coherent result0 != nil ==> di.curChunkNum == 9223372036854775807 || (di.curChunkNum == old(di.curChunkNum) && di.curChunkHeader == old(di.curChunkHeader) && forall(j, 0, len(di.curChunkHeader), di.curChunkHeader[j].DocNum == old(di.curChunkHeader[j].DocNum) && di.curChunkHeader[j].DocDvOffset == old(di.curChunkHeader[j].DocDvOffset)))
 //@   ensures[C13,C19] @loaded_chunk_is_current result0 == nil ==> di.curChunkNum == chunkNumber
+//@
+//@ // ---------------------------------------------------------------------------
+//@ // C07: doc values
+//@ // writer: every Add appends the document's bytes to the chunk buffer and records
+//@ // (docNum, end offset == bytes buffered so far) as the chunk's next header entry
+//@ func (*chunkedContentCoder).Add
+//@   ensures[C07] @header_entry_is_running_end result0 == nil ==> len(c.chunkMeta) >= 1 && c.chunkMeta[len(c.chunkMeta) - 1].DocNum == docNum && c.chunkMeta[len(c.chunkMeta) - 1].DocDvOffset == outlen(c.chunkBuf)
+//@   ensures[C07] @header_entry_is_running_end result0 == nil && docNum / c.chunkSize == old(c.currChunk) ==> len(c.chunkMeta) == old(len(c.chunkMeta)) + 1 && outlen(c.chunkBuf) == old(outlen(c.chunkBuf)) + len(vals)
+//@   ensures[C07] @new_chunk_starts_empty result0 == nil && docNum / c.chunkSize != old(c.currChunk) ==> len(c.chunkMeta) == 1 && outlen(c.chunkBuf) == len(vals) && c.currChunk == docNum / c.chunkSize
+//@
+//@ // reader: the byte range handed out for a document is delimited by the header entry that
+//@ // carries exactly that document number (never a neighbour's), from the previous entry's end
+//@ ghostfield * dvidx int
+//@ func readDocValueBoundary
+//@   ensures[C07] end == metaHeaders[chunk].DocDvOffset && start == ite(chunk > 0, metaHeaders[chunk - 1].DocDvOffset, 0)
+//@ func (*docValueReader).getDocValueLocs
+//@   requires[C07] di != nil
+//@   ghostset dvidx(di) = i
+//@   ensures[C07] @range_of_that_document start != 18446744073709551615 ==> 0 <= dvidx(di) && dvidx(di) < len(di.curChunkHeader) && di.curChunkHeader[dvidx(di)].DocNum == docNum
+//@   ensures[C07] @range_of_that_document start != 18446744073709551615 ==> end == di.curChunkHeader[dvidx(di)].DocDvOffset && start == ite(dvidx(di) > 0, di.curChunkHeader[dvidx(di) - 1].DocDvOffset, 0)
+//@   ensures[C07] @absent_marker !(0 <= dvidx(di) && dvidx(di) < len(di.curChunkHeader) && di.curChunkHeader[dvidx(di)].DocNum == docNum) ==> start == 18446744073709551615 && end == 18446744073709551615
+//@
+//@ // reuse: a clone starts with an empty cache over the same immutable chunk table
+//@ func (*docValueReader).cloneInto
+//@   requires[C07,C13] di != nil
+//@   ensures[C07,C13] result0 != nil && result0.curChunkNum == 9223372036854775807 && len(result0.curChunkHeader) == 0 && len(result0.curChunkData) == 0 && len(result0.uncompressed) == 0
+//@   ensures[C07,C13] result0.field == di.field && result0.dvDataLoc == di.dvDataLoc && result0.chunkOffsets == di.chunkOffsets
+//@   ensures[C07,C13] rv != nil ==> result0 == rv
+//@
+//@ // the cached chunk is the requested document's chunk whenever its values are read,
+//@ // whatever was visited before (forwards, backwards, across chunks, after failed loads)
+//@ func (*docValueReader).curChunkNumber
+//@   pure
+//@   ensures[C07,C13] result0 == di.curChunkNum
+//@ func (*docValueReader).visitDocValues
+//@   requires[C07,C13] @cached_chunk_is_the_documents di != nil && di.curChunkNum == docNum / 1024
